@@ -31,7 +31,7 @@ from harness.core import Case, ImplResult, frac
 PID = 'C06'
 LEAN_MODULES = ['ThermoVerif.Props.C06']
 RULE = ('a case = 1–4 real balanced reactions from a 17-reaction library over 12 chemicals with known Hf (random reactant, '
-        'X ∈ [0,1] incl. 0 and 1, mol/wt basis (wt by conversion or defined by weight at construction), P ∈ {0.5,1,2,10} bar, streams in either package, untagged or phase-tagged with reference / random / invalid phases), optionally '
+        'X ∈ [0,1] incl. 0 and 1, mol/wt basis (wt by conversion or defined by weight at construction), P ∈ {0.5,1,2,10,15} bar, streams in either chemical order and under the default ideal mixture or the one with include_excess_energies=True (35 %), untagged or phase-tagged with reference / random / invalid phases), optionally '
         'combined as ParallelReaction / SeriesReaction / ReactionSystem; dH of every reaction and set item; in 15 % of the cases a '
         'revision history on fresh Chemical copies (chemical.Hf / .Hfus = … of participating chemicals, chemicals.refresh_constants(), '
         'before or between the stream operations; reference = the chemicals\' current values); then isothermal and '
@@ -43,7 +43,11 @@ ASSUMPTIONS = [
     'H(n, T) (mixture enthalpy) is a parameter: the recorded stream.H values are passed to the model',
     'H-setter post-condition |H(T_out) − H_target| ≤ ε with ε = 1e-5·C + 1e-9·scale (monitored on every adiabatic op)',
     'stoichiometry, reactant index and X are read back from the real reaction objects (parsing / rescaling is C05)',
-    'adiabatic ops whose outlet temperature leaves [150, 3000] K are outside the quantifier and not judged',
+    'adiabatic ops whose outlet temperature leaves [150, 3000] K are outside the quantifier and not judged; nor are those whose '
+    'balance is off while H(T) of a fresh stream is not finite, strictly increasing and jump-free between inlet and outlet '
+    'temperature (EOS root switching of gas-phase departure functions below saturation): outside the property models\' range',
+    'the exact clause at 298.15 K is judged for the default ideal mixture only: with include_excess_energies=True H ≠ 0 at the '
+    'reference state (departure functions), so only the general identity applies there',
     'states the property models reject (no gas model for glucose, negative solid Cp of H2, …) are skipped and counted (skip:*)',
     'that rxn(stream) leaves T, P and phase(s) untouched, and the Hnet setter, are decided by the oracle (plus the target / '
     'resid fields of the sethnet line), not by a theorem',
@@ -60,7 +64,7 @@ TRUSTED = ['Lean 4.33 kernel', 'harness/props/c06.py + Driver/C06.lean', 'genera
 tmo = None
 IDS = ['Water', 'Ethanol', 'Methanol', 'Glucose', 'CO2', 'O2', 'H2', 'CH4', 'AceticAcid', 'N2', 'CO', 'EthylAcetate']
 IDS_B = ['N2', 'CO2', 'EthylAcetate', 'Water', 'CH4', 'Glucose', 'O2', 'Methanol', 'H2', 'CO', 'Ethanol', 'AceticAcid']
-THERMO = []           # [thermoA, thermoB]
+THERMO = []           # [thermoA, thermoB, thermoA with excess energies, thermoB with excess energies]
 CHEM = {}             # independent per-chemical data read from the CURRENT Chemical objects of the running case
 BASE_CHEM = {}        # the same for the shared (never revised) package
 
@@ -75,8 +79,15 @@ def fresh_thermos():
     """two packages (orders A and B) over fresh copies of the chemicals: a case that revises chemical data works on
     these, so nothing leaks into other cases (or other plugins)"""
     cs = {c.ID: c.copy(c.ID, CAS=c.CAS) for c in THERMO[0].chemicals}
-    return [tmo.Thermo(tmo.Chemicals([cs[i] for i in IDS]), cache=False),
+    base = [tmo.Thermo(tmo.Chemicals([cs[i] for i in IDS]), cache=False),
             tmo.Thermo(tmo.Chemicals([cs[i] for i in IDS_B]), cache=False)]
+    return base + [with_excess(th) for th in base]
+
+
+def with_excess(th):
+    """the same compiled chemicals under the mixture model that includes the excess (departure) energies in H and S
+    (`IdealMixture.from_chemicals(chemicals, include_excess_energies=True)`, a public non-default option)"""
+    return tmo.Thermo(th.chemicals, tmo.IdealMixture.from_chemicals(th.chemicals, include_excess_energies=True), cache=False)
 _SETREC = []          # values handed to the H setters
 TREF = 298.15
 # the property models (thermo/chemicals correlations) may reject a state: such a read is outside the quantifier
@@ -114,7 +125,7 @@ def setup():
     ca = tmo.Chemicals(IDS, cache=True)
     cb = tmo.Chemicals(IDS_B, cache=True)
     ta, tb = tmo.Thermo(ca, cache=False), tmo.Thermo(cb, cache=False)
-    THERMO[:] = [ta, tb]
+    THERMO[:] = [ta, tb, with_excess(ta), with_excess(tb)]
     tmo.settings.set_thermo(ta)
     BASE_CHEM.clear(); BASE_CHEM.update(chem_data(ca))
     CHEM.clear(); CHEM.update({k: dict(v) for k, v in BASE_CHEM.items()})
@@ -240,6 +251,35 @@ def fresh_energy(s):
     return float(f.H), float(f.Hf)
 
 
+def H_regular(s, Ta, Tb, points=41):
+    """Is the stream's enthalpy model usable for an energy balance between Ta and Tb?  H(T) of a freshly built stream with
+    the same flows / phase(s) / P is sampled over the interval (widened by 10 K): it must be finite, strictly increasing
+    and free of jumps (consecutive increments within a factor 1.6 of each other; also on a 1/8 K grid around Tb).  Gas-phase departure functions of condensables below their
+    saturation temperature (the package with excess energies at 10–15 bar) switch EOS roots and fail this: such an outlet
+    temperature is outside the property models' range, the clause the quantifier excludes."""
+    lo, hi = min(Ta, Tb) - 10.0, max(Ta, Tb) + 10.0
+    if isinstance(s, tmo.MultiStream):
+        f = tmo.MultiStream(None, T=lo, P=s.P, phases=tuple(s.phases), thermo=s.thermo)
+        for ph in s.phases: f.imol[ph] = s.imol[ph]
+    else:
+        f = tmo.Stream(None, T=lo, P=s.P, phase=s.phase, thermo=s.thermo)
+        f.imol.data[:] = s.imol.data.to_array()
+    def smooth(lo, hi):
+        Hs = []
+        try:
+            for k in range(points):
+                f.T = lo + (hi - lo) * k / (points - 1)
+                Hs.append(float(f.H))
+        except PROP_ERRORS:
+            return False
+        if not all(map(math.isfinite, Hs)): return False
+        inc = [b - a for a, b in zip(Hs, Hs[1:])]
+        if min(inc) <= 0: return False
+        return all(1 / 1.6 <= b / a <= 1.6 for a, b in zip(inc, inc[1:]))
+    # the whole interval, then a fine look (1/8 K steps) around the outlet temperature: an unreachable target sits in a jump
+    return smooth(lo, hi) and smooth(Tb - 2.5, Tb + 2.5)
+
+
 def real_heat(entry, s):
     """Σ_k (real dH_k)·(reactant amount reaction k sees), and the same with the independent formation-only and
     latent-only coefficients, stepping the real constituent reactions (normal call path) on a copy of the stream.
@@ -265,7 +305,7 @@ def run_impl(case: Case) -> ImplResult:
     import numpy as np
     revising = any(o.startswith('rev ') for o in case.ops)
     thermos = fresh_thermos() if revising else list(THERMO)
-    ta, tb = thermos
+    ta, tb = thermos[:2]
     tmo.settings.set_thermo(ta)
     CHEM.clear(); CHEM.update(chem_data(ta.chemicals) if revising else {k: dict(v) for k, v in BASE_CHEM.items()})
     model_in, outs, failures, tags = [], [], [], set()
@@ -427,6 +467,8 @@ def run_impl(case: Case) -> ImplResult:
             sid, pk, T, P, ph = t[1], int(t[2]), float(t[3]), float(t[4]), t[5]
             flows = [f.split(':') for f in t[6].split(',')] if len(t) > 6 and t[6] else []
             th = thermos[pk]
+            tags.add('pkg:excess-energies' if pk >= 2 else 'pkg:default-mixture')
+            if P > 1100000: tags.add('P:15bar')
             if len(ph) == 1:
                 s = tmo.Stream(None, T=T, P=P, phase=ph, thermo=th)
                 for ID, p_, a in flows: s.imol[ID] = float(a)
@@ -434,6 +476,28 @@ def run_impl(case: Case) -> ImplResult:
                 s = tmo.MultiStream(None, T=T, P=P, phases=tuple(ph), thermo=th)
                 for ID, p_, a in flows: s.imol[p_, ID] = float(a)
             streams[sid] = s
+        elif op == 'mixed':
+            # a member of a ReactionSystem switched to the other basis after the system was built: the system's own
+            # `_reaction` must refuse (RuntimeError) rather than apply weight stoichiometry to molar flows or vice versa
+            if t[3] not in streams: tags.add('skip:stream-dead'); continue
+            x, m, s0 = rx[t[1]], rx[t[2]], streams[t[3]]
+            c = s0.copy()
+            old = m['obj'].basis
+            m['obj'].basis = 'wt' if old == 'mol' else 'mol'
+            try:
+                before = flat_n(c, m['rec']['phases'])
+                try:
+                    x['obj'](c)
+                    if flat_n(c, m['rec']['phases']) != before or any(z['rec']['X'] for z in x['singles']):
+                        fail('system-mixed-basis-accepted',
+                             f'a ReactionSystem (basis {old}) whose member {t[2]} was switched to the other basis afterwards was '
+                             f'applied to a stream without complaint: stoichiometry of one basis acts on flows of the other, so '
+                             f'ΔHf ≠ Σ dH·feed')
+                except (RuntimeError, tmo.exceptions.InfeasibleRegion):
+                    pass
+            finally:
+                m['obj'].basis = old
+            tags.add('mixed-basis-system')
         elif op == 'sethnet':
             if t[1] not in streams: tags.add('skip:stream-dead'); continue
             s = streams[t[1]]
@@ -445,6 +509,7 @@ def run_impl(case: Case) -> ImplResult:
                 tags.add('skip:no-H-model'); continue
             if not all(map(math.isfinite, (H0, Hf0, Hnet0, C0))) or C0 == 0: tags.add('skip:no-H-model'); continue
             n0 = flat_n(s, phases)
+            T0s = float(s.T)
             V = Hnet0 + float(t[2]) * C0
             P0, ph0 = float(s.P), (tuple(s.phases) if phases else s.phase)
             del _SETREC[:]
@@ -463,6 +528,8 @@ def run_impl(case: Case) -> ImplResult:
                 tags.add('sethnet:outlet-T-out-of-range'); del streams[t[1]]; continue
             scale = sum(abs(CHEM[IDS[k % len(IDS)]]['Hf'] * v) for k, v in enumerate(n0)) + abs(V) + abs(Hgot)
             eps = 1e-5 * max(abs(C0), abs(C1)) + 1e-9 * scale
+            if not abs(Hnet1 - V) <= eps and not H_regular(s, T0s, T1):
+                tags.add('sethnet:H-model-irregular-over-interval'); del streams[t[1]]; continue
             emit('sethnet %s V=%s n=%s Hgot=%s eps=%s' % (''.join(phases) or '-', fr(V), frs(n0), fr(Hgot), fr(eps)),
                  'target=%s Hnet1=%s resid=%s hyp=ok' % (fr(target) if target is not None else 'none', fr(Hnet1), fr(Hnet1 - V)))
             tags.add('sethnet:multi' if phases else 'sethnet:single')
@@ -546,7 +613,9 @@ def run_impl(case: Case) -> ImplResult:
                     fail('isothermal-identity:' + kindtag,
                          f'isothermal reaction at T={T0}: ΔHnet={dHnet!r} but Σ dH·feed={heat!r}, latent part={lat!r}, '
                          f'ΔH={H1 - H0!r} (residual {resid!r}, tolerance {tolv:.3g})')
-                at_ref = T0 == TREF and all(
+                excess = bool(getattr(s.thermo.mixture, 'include_excess_energies', False))
+                if excess and T0 == TREF: tags.add('info:at-298K-with-excess-energies(H≠0, exact clause not judged)')
+                at_ref = T0 == TREF and not excess and all(
                     (CHEM[IDS[i]]['ref'] == (phases[p] if phases else s.phase)) for m in singles for (p, i, _) in m['rec']['nz'])
                 if at_ref:
                     tags.add('iso:at-reference')
@@ -582,6 +651,8 @@ def run_impl(case: Case) -> ImplResult:
                     tags.add('adia:outlet-T-out-of-range'); del streams[t[2]]; continue
                 eps = 1e-5 * max(abs(C0), abs(C1)) + 1e-9 * scale
                 resid = Hnet1 - (Hnet0 + Q)
+                if not abs(resid) <= eps and not H_regular(s, T0, T1):
+                    tags.add('adia:H-model-irregular-over-interval'); del streams[t[2]]; continue
                 emit('adia %s Q=%s n=%s H0=%s Hgot=%s eps=%s' % (t[1], fr(Q), frs(n0), fr(H0), fr(Hgot), fr(eps)),
                      'n=%s target=%s Hnet0=%s Hnet1=%s resid=%s hyp=ok' % (
                          frs(n1), fr(target) if target is not None else 'none', fr(Hnet0), fr(Hnet1), fr(resid)))
@@ -758,6 +829,7 @@ def gen_case(rng):
     if tagging == 'bad': return Case(ops, {})
     nused = nrx if structure != 'single' else 1
     dh_ops = [o for o in ops if o.startswith('dh ')]
+    tail_ops = []
     def revision():
         # history: compile → revise heats of formation (and fusion) of participating chemicals → refresh_constants()
         out = []
@@ -810,8 +882,10 @@ def gen_case(rng):
             for k_ in list(amt):
                 if k_ not in rk: amt[k_] *= 0.3          # deficient feed: InfeasibleRegion expected
         flows = ['%s:%s:%s' % (ID, p_, num(a)) for (ID, p_), a in amt.items()]
-        P = rng.choice([101325, 101325, 50000, 202650, 1000000])
-        ops.append('S s%d %d %s %s %s %s' % (sidx, 1 if rng.random() < 0.3 else 0, num(T), num(P), sph, ','.join(flows)))
+        P = rng.choice([101325, 101325, 50000, 202650, 1000000, 1500000])
+        # property package: chemical order A or B, default ideal mixture or the one that includes excess energies
+        pk = (1 if rng.random() < 0.3 else 0) + (2 if rng.random() < 0.35 else 0)
+        ops.append('S s%d %d %s %s %s %s' % (sidx, pk, num(T), num(P), sph, ','.join(flows)))
         # read histories: (H, Hnet, C are read before every reaction) → reaction at unchanged T, P → another memoised
         # property (`peek=`) → H / Hnet again, or adiabatic_reaction started from that state
         def pk(p): return (' peek=' + rng.choice(PEEKS)) if rng.random() < p else ''
@@ -829,10 +903,14 @@ def gen_case(rng):
             ops.append('adia %s s%d %s %s%s' % (top, sidx, num(dT), sph, pk(0.3)))
             if rng.random() < 0.3: ops.append('iso %s s%d%s' % (top, sidx, pk(0.6)))
         if rng.random() < 0.15: ops.append('sethnet s%d %s%s' % (sidx, num(rng.choice([0, 15, -25, 60])), pk(0.5)))
+        if sidx == 0 and top == 'y0' and rng.random() < 0.25:
+            plain = [o.split(' ')[2].split(',') for o in ops if o.startswith('Y y0 ')][0]
+            plain = [i for i in plain if i.startswith('r')]
+            if plain: tail_ops.append('mixed y0 %s s0' % rng.choice(plain))
         if revise_late and sidx == 0:
             ops.extend(revision())
             if rng.random() < 0.5: ops.append('iso %s s0%s' % (top, pk(0.5)))      # the stream created before the revision
-    return Case(ops, {})
+    return Case(ops + tail_ops, {})
 
 
 def generate(rng, tier, index, nworkers):
